@@ -176,6 +176,22 @@ fn gen_run(tape: &[u8], stats: &mut GenStats, with_failure_clause: bool) -> Opti
             no_formatting = false;
             args.retain(|a| a != "--no-formatting");
         }
+    } else if !with_failure_clause && opts.operation_name.is_none() && t.chance(4) {
+        // an operation whose module name is a Rust keyword: the library still produces tokens, rustfmt
+        // cannot format them - the formatting step of the command fails
+        let mut d = b.world.doc.clone();
+        let kw = *t.pick(&["Match", "Move", "Type", "Async", "Loop"]);
+        let mut done = false;
+        for def in d.defs.iter_mut() {
+            if let crate::world::query::Definition::Op(o) = def {
+                if !done {
+                    o.name = Some(kw.to_string());
+                    o.shorthand = false;
+                    done = true;
+                }
+            }
+        }
+        document = crate::world::query::render_document(&d, &b.world.schema, &crate::world::query::QueryStyle { trivia: None });
     } else if !with_failure_clause && opts.operation_name.is_none() && t.chance(6) {
         // a document of fragments only (a shared fragments file): the library yields no items,
         // the file is the header alone
@@ -270,12 +286,24 @@ fn execute_limit(dir: &Path, r: &Run, limit: u64) -> Result<(), (Option<&'static
     };
     let private = r.args.iter().any(|a| a == "private");
     let key = if private { Some("module-visibility-private") } else { None };
-    if !run.status.success() {
-        return Err((key, format!("the command failed ({}): {}", crate::e2::describe_status(&run.status), run.stderr.chars().take(400).collect::<String>())));
-    }
     let mut expected = format!("{}\n{}", HEADER, tokens);
     if !r.no_formatting {
-        expected = rustfmt(&expected).map_err(|e| (key, format!("the expected code does not format: {}", e)))?;
+        match rustfmt(&expected) {
+            Ok(f) => expected = f,
+            Err(e) => {
+                // what the library produced is not accepted by rustfmt (e.g. an operation whose module
+                // name is a keyword): with formatting requested this is a generation error of the
+                // command - non-zero exit, nothing written or truncated
+                if run.status.success() || before != after {
+                    let changed: Vec<&String> = after.keys().filter(|k| before.get(*k) != after.get(*k)).chain(before.keys().filter(|k| !after.contains_key(*k))).collect();
+                    return Err((key, format!("rustfmt rejects the generated code ({}), yet the command exited {} and changed {:?}", e.lines().next().unwrap_or(""), run.status, changed)));
+                }
+                return Ok(());
+            }
+        }
+    }
+    if !run.status.success() {
+        return Err((key, format!("the command failed ({}): {}", crate::e2::describe_status(&run.status), run.stderr.chars().take(400).collect::<String>())));
     }
     // exactly one new / changed file, at the expected place
     let mut changed: Vec<String> = after.iter().filter(|(k, v)| before.get(*k) != Some(*v)).map(|(k, _)| k.clone()).collect();
@@ -316,7 +344,7 @@ fn from_replay(v: &Value) -> Option<Run> {
 }
 
 pub fn run(report: &mut Report, replay: Option<&Value>) {
-    report.rule = "supported (schema, query) pairs x flag combinations (short / long spellings; variables / response derives, the three deprecation strategies, module visibility pub / private, custom scalars module, other-variant, external enums, selected operation) x output placement (beside the query file; -o dir; stems with extra dots, no extension, spaces, sub-directories) x --no-formatting on/off x pre-existing target file x schema file name (.graphql / .graphqls / .gql / .json, extra dots, sub-directory) x documents of fragments only (header-only file) x query path given as a symbolic link to a differently named file x documents of 12-20 operations (output far beyond a pipe buffer, mostly through rustfmt); plus invalidating edits of the C06 catalogue for the failure clause. Oracle: exit 0 and the only changed file is <stem>.rs at the expected place with content `#![allow(clippy::all, warnings)]\\n` + the tokens of the library called in-process with options from the harness's own flag table (formatted runs: the expectation piped through the same rustfmt); on a generation error: exit != 0 and the directory tree (incl. a pre-existing target) is unchanged. Non-trivial: >= 3 flags, a non-default placement, or the failure clause; distinct by (inputs, argument vector).".into();
+    report.rule = "supported (schema, query) pairs x flag combinations (short / long spellings; variables / response derives, the three deprecation strategies, module visibility pub / private, custom scalars module, other-variant, external enums, selected operation) x output placement (beside the query file; -o dir; stems with extra dots, no extension, spaces, sub-directories) x --no-formatting on/off x pre-existing target file x schema file name (.graphql / .graphqls / .gql / .json, extra dots, sub-directory) x documents of fragments only (header-only file) x query path given as a symbolic link to a differently named file x documents of 12-20 operations (output far beyond a pipe buffer, mostly through rustfmt); plus invalidating edits of the C06 catalogue for the failure clause. Oracle: exit 0 and the only changed file is <stem>.rs at the expected place with content `#![allow(clippy::all, warnings)]\\n` + the tokens of the library called in-process with options from the harness's own flag table (formatted runs: the expectation piped through the same rustfmt; where rustfmt rejects it - operations named `Match`, `Type`, ... - the command must fail without writing or truncating anything); on a generation error: exit != 0 and the directory tree (incl. a pre-existing target) is unchanged. Non-trivial: >= 3 flags, a non-default placement, or the failure clause; distinct by (inputs, argument vector).".into();
     report.assumptions = vec!["rustfmt as installed is deterministic".into(), "documented --module-visibility values are `pub` and `private`".into()];
     if let Err(e) = crate::e3::ensure_cli_built() {
         report.infra(e);
@@ -401,6 +429,9 @@ pub fn run(report: &mut Report, replay: Option<&Value>) {
         }
         if r.query_link_target.is_some() {
             report.feature("query_path_is_a_symlink");
+        }
+        if ["query Match", "query Move", "query Type", "query Async", "query Loop", "mutation Match", "mutation Move", "mutation Type", "mutation Async", "mutation Loop", "subscription Match", "subscription Move", "subscription Type", "subscription Async", "subscription Loop"].iter().any(|k| r.document.contains(k)) {
+            report.feature(if r.no_formatting { "keyword_named_operation_unformatted" } else { "keyword_named_operation_through_rustfmt" });
         }
         if r.document.matches("Bulk").count() >= 8 {
             report.feature(if r.no_formatting { "bulk_document_unformatted" } else { "bulk_document_through_rustfmt" });
